@@ -239,3 +239,17 @@ pub open spec fn pkesk_x_layout(ephemeral: Seq<u8>, kem: Seq<u8>, sym: Option<u8
 {
     ephemeral + kem + seq![pkesk_x_size(sym, esk) as u8] + (match sym { Some(a) => seq![a], None => Seq::<u8>::empty() }) + esk
 }
+
+// ---- RFC 9580 5.9: Literal Data packet (type ID 11) ----------------------------------------------
+//   A one-octet field that describes how the data is formatted ('b', 't', 'u').  File name as a string (one-octet
+//   length, followed by a file name).  A four-octet number that indicates a date associated with the literal data.
+//   The remainder of the packet is literal data.
+pub open spec fn literal_header_layout(mode: u8, file_name: Seq<u8>, date: Seq<u8>) -> Seq<u8>
+    recommends file_name.len() <= 255, date.len() == 4
+{
+    seq![mode, file_name.len() as u8] + file_name + date
+}
+// ---- RFC 9580 5.8: Marker packet (type ID 10): the three octets 0x50, 0x47, 0x50 ("PGP") --------
+pub open spec fn marker_layout() -> Seq<u8> { seq![0x50u8, 0x47u8, 0x50u8] }
+// ---- RFC 9580 5.11 User ID (the body is the UTF-8 text), 5.14 Padding (the body is random octets), 5.13.1 the
+//      20-octet SHA-1 of the deprecated Modification Detection Code packet: the body is the field itself
